@@ -136,6 +136,36 @@ def suffixLoop (ld : Str → Option Str) : Str → Str
     else if isF c then suffixLoop ld t
     else c :: t
 
+/-- `if ((*c == '+') || (*c == '-'))` -/
+def isSigned (r : Str) : Bool := hd r == '+' || hd r == '-'
+
+/-- `++c; lex::skipWhitespace(c);` after a sign -/
+def loadSignSkip (r : Str) : Str :=
+  if isSigned r then (r.drop 1).dropWhile (lexWhitespace.contains ·) else r
+
+/-- loadBinary / loadHex: the digits; no digit at all gives type none -/
+def loadDigits (p : Char → Bool) (t : Str) : Option Str :=
+  if (t.takeWhile p).isEmpty then none else some (t.dropWhile p)
+
+/-- the `0b…` / `0x…` branch: `none` = not taken, `some none` = taken and failed -/
+def loadFormatted : Str → Option (Option Str)
+  | '0' :: x :: t =>
+    if x == 'b' || x == 'B' then some (loadDigits isBin t)
+    else if x == 'x' || x == 'X' then some (loadDigits isHex t)
+    else none
+  | _ => none
+
+/-- everything after the optional sign; `ld` is the recursive `load` used for an exponent -/
+def loadBody (ld : Str → Option Str) (r1 : Str) : Option Str :=
+  match loadFormatted r1 with
+  | some none => none
+  | some (some r2) => some (r2.dropWhile isLU)          -- hex and binary only take U, L
+  | none =>
+    -- digits and dots; at least one digit is needed
+    if (r1.takeWhile isDigitOrDot).any isDigit then
+      some (suffixLoop ld (r1.dropWhile isDigitOrDot))
+    else none
+
 /-- `primitive::load(c, includeSign)`: `none` = the result has type none (and `c` is unchanged),
     `some r'` = a primitive was read and `c` is left at `r'`.  Fuel bounds the exponent recursion. -/
 def loadF : Nat → Bool → Str → Option Str
@@ -143,30 +173,8 @@ def loadF : Nat → Bool → Str → Option Str
   | f + 1, includeSign, r =>
     if startsWith ['t', 'r', 'u', 'e'] r then some (r.drop 4)
     else if startsWith ['f', 'a', 'l', 's', 'e'] r then some (r.drop 5)
-    else
-      let signed := hd r == '+' || hd r == '-'
-      if signed && !includeSign then none
-      else
-        -- `++c; lex::skipWhitespace(c)`
-        let r1 := if signed then (r.drop 1).dropWhile (lexWhitespace.contains ·) else r
-        -- `0b…` / `0x…`: loadBinary / loadHex; no digit after the prefix gives type none
-        let formatted : Option (Option Str) :=
-          match r1 with
-          | '0' :: x :: t =>
-            if x == 'b' || x == 'B' then
-              some (if (t.takeWhile isBin).isEmpty then none else some (t.dropWhile isBin))
-            else if x == 'x' || x == 'X' then
-              some (if (t.takeWhile isHex).isEmpty then none else some (t.dropWhile isHex))
-            else none
-          | _ => none
-        match formatted with
-        | some none => none
-        | some (some r2) => some (r2.dropWhile isLU)
-        | none =>
-          -- digits and dots; at least one digit is needed
-          if (r1.takeWhile isDigitOrDot).any isDigit then
-            some (suffixLoop (loadF f true) (r1.dropWhile isDigitOrDot))
-          else none
+    else if isSigned r && !includeSign then none
+    else loadBody (loadF f true) (loadSignSkip r)
 
 def loadScan (includeSign : Bool) (r : Str) : Option Str := loadF (r.length + 1) includeSign r
 
@@ -205,25 +213,30 @@ inductive Kind
   | none | ident | prim | op | newline | str (enc : Nat) | chr (enc : Nat)
 deriving Repr, DecidableEq
 
+/-- the primitive test of shallowPeek (after FL3): `primitive::load(pos, false)` succeeds and the literal
+    is not the beginning of an identifier (`true_var`, `true1`, `1abc`) -/
+def isPrimitiveAt (r : Str) : Bool :=
+  match loadScan false r with
+  | some pos =>
+    !identifierStart.contains (hd pos)
+      && !(identifierStart.contains (hd r) && identifier.contains (hd pos))
+  | none => false
+
+/-- the rest of shallowPeek: the token type suggested by the first character -/
+def classifyChar (c : Char) : Kind :=
+  if identifierStart.contains c then .ident
+  else if operatorCharcodes.contains c then .op
+  else if c = '\n' then .newline
+  else if c = '"' then .str 0
+  else if c = '\'' then .chr 0
+  else .none
+
 /-- tokenizer_t::shallowPeek (it skips whitespace itself, the position is returned) -/
 def shallowPeek (r : Str) : M (Kind × Str) := do
   let r ← skipWhitespace r
-  let c := hd r
-  if c = NUL then return (.none, r)
-  let k : Kind :=
-    match loadScan false r with
-    | some pos =>
-      if !identifierStart.contains (hd pos)
-         && !(identifierStart.contains c && identifier.contains (hd pos)) then .prim
-      else .none
-    | none => .none
-  if k = .prim then return (.prim, r)
-  if identifierStart.contains c then return (.ident, r)
-  if operatorCharcodes.contains c then return (.op, r)
-  if c = '\n' then return (.newline, r)
-  if c = '"' then return (.str 0, r)
-  if c = '\'' then return (.chr 0, r)
-  return (.none, r)
+  if hd r = NUL then return (.none, r)
+  if isPrimitiveAt r then return (.prim, r)
+  return (classifyChar (hd r), r)
 
 /-- tokenizer_t::peekForIdentifier (after FL2): `r` starts with an identifierStart character -/
 def peekForIdentifier (r : Str) : M Kind := do
@@ -362,21 +375,24 @@ def getCharToken (enc : Nat) (r : Str) : M Step := do
   let (udf, r5) ← getUdf r4
   return (some (.chr enc (unescape '\'' (consumed r2 r3)) udf), 0, r5)
 
+/-- the second half of getToken: the call selected by the peeked type -/
+def dispatch (k : Kind) (r : Str) : M Step :=
+  match k with
+  | .ident => getIdentifierToken r
+  | .prim => getPrimitiveToken r
+  | .op => getOperatorToken r
+  | .newline => do let r1 ← adv r 1; return (some .newline, 0, r1)
+  | .chr enc => getCharToken enc r
+  | .str enc => getStringToken enc r
+  | .none => do let r1 ← adv r 1; return (some (.unknown (hd r)), 0, r1)
+
 /-- tokenizer_t::getToken on a position that is not the end (`reachedTheEnd()` is tested by the loop) -/
 def getToken (r : Str) : M Step := do
   let r ← skipWhitespace r
   if r.isEmpty then return (some .newline, 0, r)          -- finishedSource
   let (k, err, r) ← peek r
-  let e0 := if err then 1 else 0
-  let (t, e, r') ← (match k with
-    | .ident => getIdentifierToken r
-    | .prim => getPrimitiveToken r
-    | .op => getOperatorToken r
-    | .newline => do let r1 ← adv r 1; return (some .newline, 0, r1)
-    | .chr enc => getCharToken enc r
-    | .str enc => getStringToken enc r
-    | .none => do let r1 ← adv r 1; return (some (.unknown (hd r)), 0, r1) : M Step)
-  return (t, e0 + e, r')
+  let (t, e, r') ← dispatch k r
+  return (t, (if err then 1 else 0) + e, r')
 
 structure Result where
   toks : List Tok
